@@ -3486,12 +3486,20 @@ static Token *function(Token *tok, Type *basety, VarAttr *attr) {
     if (!fn->is_static && attr->is_static)
       error_tok(tok, "static declaration follows a non-static declaration");
     fn->is_definition = fn->is_definition || equal(tok, "{");
+
+    // [https://www.sigbus.info/n1570#6.7.4p7] An inline definition
+    // is an external definition if any file-scope declaration of the
+    // function lacks "inline" or has "extern".
+    if (fn->is_inline_def && !scope->next && !attr->is_static &&
+        (!attr->is_inline || attr->is_extern))
+      fn->is_inline_def = fn->is_static = false;
   } else {
     fn = new_gvar(name_str, ty);
     fn->is_function = true;
     fn->is_definition = equal(tok, "{");
     fn->is_static = attr->is_static || (attr->is_inline && !attr->is_extern);
     fn->is_inline = attr->is_inline;
+    fn->is_inline_def = fn->is_static && !attr->is_static;
   }
 
   // A root mark set by an earlier reference survives a redeclaration.
